@@ -241,27 +241,33 @@ def run_case(case):
       fail("resume-differs", bad, k=k)
   res["checks"].append("resume@%s" % ks)
 
-  # interleaving two optimizer objects (second one on a shifted history) vs isolated runs
+  # interleaving two optimizer objects -- A on this case's tree, B with the same hyper-parameters on
+  # a DIFFERENT tree and history -- against their isolated runs (nothing may leak between calls,
+  # e.g. through the list mutated by `exponents.extend(...)` in _pmap_compute_preconditioners)
   if case.get("interleave", True):
-    a, b = Runner(case, mode), Runner(case, mode)
-    sa, sb = a.init(params), b.init(params)
-    gb = grads[1:] + grads[:1]
-    for t in range(min(T, 3)):
+    caseb = dict(case, tree=case.get("tree_b") or {"k": "dict", "keys": ["a", "b"], "ch": [
+        {"k": "leaf", "shape": [2, 5]}, {"k": "leaf", "shape": [7]}]})
+    rngb = common.SplitMix64(int(case.get("seed", 1)) + 17)
+    pb = make_grads(caseb, rngb, 1)[0]
+    gb = make_grads(caseb, rngb, 3)
+    a, b = Runner(case, mode), Runner(caseb, mode)
+    sa, sb = a.init(params), b.init(pb)
+    n = min(T, 3)
+    for t in range(n):
       ua, sa = a.update(grads[t], sa, params)
-      ub, sb = b.update(gb[t], sb, params)
+      ub, sb = b.update(gb[t], sb, pb)
       d = first_diff(tree_digest(ua), ud[t]) or first_diff(tree_digest(sa), sd[t + 1])
       if d:
         fail("interleave", "optimizer A interleaved with B differs from A alone at update %d: %s" % (t + 1, d),
              step=t + 1)
         break
-    # B alone
-    c = Runner(case, mode)
-    sc = c.init(params)
-    for t in range(min(T, 3)):
-      uc, sc = c.update(gb[t], sc, params)
+    c = Runner(caseb, mode)
+    sc = c.init(pb)
+    for t in range(n):
+      uc, sc = c.update(gb[t], sc, pb)
     d = first_diff(tree_digest(sc), tree_digest(sb))
     if d:
-      fail("interleave", "optimizer B interleaved with A differs from B alone: %s" % d)
+      fail("interleave", "optimizer B (other tree) interleaved with A differs from B alone: %s" % d)
     res["checks"].append("interleave")
 
   # blob for the cross-process resume (hex), crash point T//2
